@@ -82,6 +82,7 @@ static int g_status = 0; static const char *g_what = "";
 static void (*abort_handler)(int, const char *) = NULL;
 static long pct_change[16]; static int pct_nchange = 0;
 static int diverged = 0;
+static uint8_t *follow = NULL; static int n_follow = 0, k_follow = 0; static int forced = -1;
 
 static uint64_t rnd (void) { uint64_t x = g_rng; x ^= x << 13; x ^= x >> 7; x ^= x << 17; g_rng = x; return x * 0x2545F4914F6CDD1DULL; }
 
@@ -157,6 +158,8 @@ int vf_parse_schedule (const char *s, uint8_t *buf, int cap)
   return n;
 }
 void vf_sched_set_schedule (const uint8_t *c, int n) { free (prefix); prefix = (uint8_t *) malloc (n > 0 ? n : 1); if (n > 0) memcpy (prefix, c, n); n_prefix = n; }
+void vf_sched_set_follow (const uint8_t *c, int n) { free (follow); follow = (uint8_t *) malloc (n > 0 ? n : 1); if (n > 0) memcpy (follow, c, n); n_follow = n; k_follow = 0; }
+int vf_sched_diverged (void) { return diverged; }
 int vf_self (void) { return active ? my_tid : -1; }
 int vf_sched_deadlocked (void) { return g_status == VF_ST_DEADLOCK; }
 int vf_sched_status (void) { return g_status; }
@@ -206,8 +209,13 @@ static void cond_remove (int c, int t)
 static int decide (int kind, const uint8_t *opts, int nopts, int deflt, int cur_enabled)
 {
   int chosen = deflt, i;
-  if (nopts == 1) return opts[0];
-  if (g_mode == VF_REPLAY) {
+  if (forced >= 0) {
+    int ok = 0; for (i = 0; i < nopts; i++) if (opts[i] == forced) ok = 1;
+    if (!ok) { diverged++; forced = -1; }
+  }
+  if (nopts == 1) { forced = -1; return opts[0]; }
+  if (forced >= 0) { chosen = forced; forced = -1; }
+  else if (g_mode == VF_REPLAY) {
     if (n_dec < n_prefix) {
       int v = prefix[n_dec], ok = 0;
       for (i = 0; i < nopts; i++) if (opts[i] == v) ok = 1;
@@ -242,6 +250,7 @@ static int pick (void)
   if (cur_en) deflt = cur;
   else { for (i = 1; i <= nT; i++) { t = (cur + i) % nT; if (enabled (t)) { deflt = t; break; } } }
   if (spurious_left > 0) for (t = 0; t < nT && n < MAXOPT; t++) if (spurious_ok (t)) opts[n++] = (uint8_t) (64 + t);
+  forced = (k_follow < n_follow) ? follow[k_follow++] : -1;
   v = decide (0, opts, n, deflt, cur_en);
   if (v >= 64) { v -= 64; spurious_left--; T[v].signalled = 2; cond_remove (T[v].pobj, v); }
   return v;
@@ -272,7 +281,7 @@ static void init_common (vf_mode mode, uint64_t seed, const vf_opts *o)
   T[0].state = T_RUNNING; T[0].pt = pthread_self (); sem_init (&T[0].sem, 0, 0); T[0].prio = 1000 + (rnd () >> 8);
   memset (hkey, 0, sizeof hkey); n_mutex = n_cond = 0; n_ev = 0; n_dec = 0; g_status = 0; diverged = 0;
   if (!dec) dec = (decision *) malloc (MAXDEC * sizeof (decision));
-  spurious_left = g_o.max_spurious;
+  spurious_left = g_o.max_spurious; k_follow = 0; forced = -1;
   pct_nchange = 0;
   if (mode == VF_PCT) { pct_nchange = g_o.pct_depth - 1; if (pct_nchange > 16) pct_nchange = 16; if (pct_nchange < 0) pct_nchange = 0;
     for (i = 0; i < pct_nchange; i++) pct_change[i] = (long) (rnd () % (uint64_t) (g_o.pct_steps > 0 ? g_o.pct_steps : 1)); }
@@ -454,7 +463,7 @@ static void child_report (int status, const char *what)
 }
 static int rd (int fd, void *p, size_t n) { char *c = (char *) p; while (n > 0) { ssize_t k = read (fd, c, n); if (k < 0 && errno == EINTR) continue; if (k <= 0) return -1; c += k; n -= (size_t) k; } return 0; }
 
-typedef struct { int status, rc, n_dec, cost; decision *dec; char *what; char *trace; size_t trace_len; uint8_t *sched; } run_res;
+typedef struct { int status, rc, n_dec, cost, diverged; decision *dec; char *what; char *trace; size_t trace_len; uint8_t *sched; } run_res;
 static void free_res (run_res *r) { free (r->dec); free (r->what); free (r->trace); free (r->sched); }
 
 static void forked_run (vf_scenario fn, void *arg, vf_mode mode, uint64_t seed, const vf_opts *so,
@@ -477,7 +486,7 @@ static void forked_run (vf_scenario fn, void *arg, vf_mode mode, uint64_t seed, 
   }
   close (pfd[1]);
   if (rd (pfd[0], &h, sizeof h) == 0) {
-    out->status = h.status; out->rc = h.rc; out->n_dec = h.n_dec;
+    out->status = h.status; out->rc = h.rc; out->n_dec = h.n_dec; out->diverged = h.diverged;
     out->dec = (decision *) malloc ((size_t) (h.n_dec + 1) * sizeof (decision));
     out->what = (char *) calloc ((size_t) h.what_len + 1, 1); out->trace = (char *) calloc ((size_t) h.trace_len + 1, 1); out->trace_len = (size_t) h.trace_len;
     if (rd (pfd[0], out->dec, (size_t) h.n_dec * sizeof (decision)) || rd (pfd[0], out->what, (size_t) h.what_len) || rd (pfd[0], out->trace, (size_t) h.trace_len))
@@ -498,7 +507,7 @@ static int deliver (run_res *r, long seq, vf_on_run cb, void *user)
 {
   vf_run v;
   v.run = seq; v.status = r->status; v.rc = r->rc; v.what = r->what ? r->what : ""; v.schedule = r->sched;
-  v.n_schedule = r->n_dec >= 0 ? r->n_dec : -r->n_dec; v.trace = r->trace; v.trace_len = r->trace_len; v.cost = r->cost;
+  v.n_schedule = r->n_dec >= 0 ? r->n_dec : -r->n_dec; v.trace = r->trace; v.trace_len = r->trace_len; v.cost = r->cost; v.diverged = r->diverged;
   return cb ? cb (&v, user) : 0;
 }
 int vf_run_once (vf_scenario fn, void *arg, vf_mode mode, uint64_t seed, const vf_opts *so,
